@@ -164,6 +164,25 @@ class Executor:
       else:
         r=st1.alloc('list',{'items':tuple(vals)}); yield st1,r
 
+  def ev_ListComp(s,e,st):
+    # [ f(i) for i in <concrete iterable> ] : unrolled; the comprehension variable is local to the comprehension
+    if len(e.generators)!=1 or e.generators[0].ifs or e.generators[0].is_async: raise Unsupported("general list comprehension")
+    g=e.generators[0]
+    for st1,it in s.ev(g.iter,st):
+      if isinstance(it,Exc): yield st1,it; continue
+      items=s.concrete_items(it,st1)
+      if items is None or not isinstance(g.target,ast.Name): raise Unsupported("comprehension over a symbolic collection")
+      def go(i,st,acc):
+        if i==len(items):
+          st2=st.fork(); st2.env.pop(g.target.id,None)
+          if g.target.id in st.env and g.target.id in st1.env: st2.env[g.target.id]=st1.env[g.target.id]
+          yield st2,st2.alloc('list',{'items':tuple(acc)}); return
+        st2=st.fork(); st2.env[g.target.id]=items[i]
+        for st3,v in s.ev(e.elt,st2):
+          if isinstance(v,Exc): yield st3,v
+          else: yield from go(i+1,st3,acc+[v])
+      yield from go(0,st1,[])
+
   def ev_Slice(s,e,st):
     parts=[p if p is not None else ast.Constant(None) for p in (e.lower,e.upper,e.step)]
     for st1,vals in s.evs(parts,st):
@@ -553,6 +572,12 @@ class Executor:
             elif isinstance(L,ast.Attribute) and isinstance(L.value,ast.Name) and L.value.id=='result' and isinstance(res,Ref):
               v=sub.spec_val(R,env2,st1,st1.heap,pre_heap)
               if is_intlike(v) and (res.id,L.attr) in st1.heap: st1.heap[(res.id,L.attr)]=I(as_int(v))
+            elif isinstance(L,ast.Attribute) and isinstance(L.value,ast.Name) and L.value.id in env2 and isinstance(env2[L.value.id],Ref) \
+                 and f"{L.value.id}.{L.attr}" in (cs.modifies if cs.modifies is not None else c.modifies):
+              # a havoced field defined by the postcondition; E must not read that field in the post-state
+              if any(isinstance(x,ast.Attribute) and x.attr==L.attr and not _inside_old(R,x) for x in ast.walk(R)): continue
+              v=sub.spec_val(R,env2,st1,st1.heap,pre_heap)
+              if is_intlike(v): st1.heap[(env2[L.value.id].id,L.attr)]=I(as_int(v))
           except ToolError: pass
       if res is not None: env2['result']=res
       if cs.ensures:
@@ -909,6 +934,12 @@ class Executor:
     st=st.fork(); st.env[n.name]=Fn('local:'+n.name); yield st,None
   def st_ClassDef(s,n,st):
     yield st,None
+
+def _inside_old(root,node):
+  for n in ast.walk(root):
+    if isinstance(n,ast.Call) and isinstance(n.func,ast.Name) and n.func.id=='old':
+      if any(x is node for x in ast.walk(n)): return True
+  return False
 
 def _as_load(t):
   t2=ast.parse(ast.unparse(t),mode='eval').body
